@@ -37,6 +37,13 @@ ExpLenClass ==
       [] r.fc = 23 /\ x = (IF Fr = "tcp" THEN 17 + 2 * r.qty ELSE 6 + 2 * r.qty) -> "F5"
       [] OTHER -> ""
 
+\* the boundaries the TRANSPORT put between its deliveries (cumulative chunk lengths of the script): a read that ends
+\* elsewhere ended where the client's own buffer ended
+RECURSIVE ScriptBounds(_, _, _)
+ScriptBounds(sc, i, acc) ==
+    IF i > Len(sc) THEN {}
+    ELSE IF sc[i].k \in {"chunk", "chunkeof", "chunkdl"} THEN {acc + sc[i].n} \cup ScriptBounds(sc, i + 1, acc + sc[i].n)
+    ELSE ScriptBounds(sc, i + 1, acc)
 \* the client stopped at the first read boundary >= x although the reply is longer, and handed that prefix to the parser
 DevShort(ret) ==
     LET x == cfg.explen n == Len(bounds) IN
@@ -44,6 +51,7 @@ DevShort(ret) ==
     /\ n >= 1 /\ Len(D) = bounds[n]
     /\ IsPrefixOf(D, R) /\ Len(D) < Len(R) /\ Len(D) >= x
     /\ Len(D) <= MaxADU(Fr)          \* (more than an ADU can hold must have been refused as too long before anything else)
+    /\ Len(D) \in ScriptBounds(cfg.script, 1, 0)   \* (... at a boundary of the transport's making, not of the client's buffer)
     /\ (n = 1 \/ bounds[n - 1] < x)
     /\ (bpSeen \/ cfg.hooks = 0)
     /\ \/ ret.kind = "err" /\ ret.isClientError = 0
